@@ -716,6 +716,109 @@ theorem replayAux_corrupt (cfg : Cfg) (hcrc : cfg.crcOn = true) (stop s0 p c len
                 simp only [walkAux, he, Bool.false_eq_true, if_false, hp, List.mem_cons]
                 right; exact h2
 
+/-- The same for any record at `p` whose handler rejects what now follows its (intact) header — a separator or a write
+with a checksum that no longer matches. -/
+theorem replayAux_corrupt_at (cfg : Cfg) (stop s0 p : Nat) (rp : Rec) (fuel : Nat) :
+    ∀ (rest rest' : Bytes) (pos : Nat) (first : Bool) (m : Bytes),
+    rest.length = rest'.length → pos ≤ p →
+    rest.take (p + hdr rp - pos) = rest'.take (p + hdr rp - pos) →
+    (p, rp) ∈ walkAux fuel rest pos →
+    (∀ q c' l', (q, Rec.sep c' l') ∈ walkAux fuel rest pos → q < p → q + 12 + l' ≤ p) →
+    (∀ q, (q, Rec.savepoint) ∈ walkAux fuel rest pos → q ≠ s0) →
+    (replayAux cfg s0 fuel rest pos first m).rc = .ok →
+    (∀ x, (applyB cfg rp (body rp (rest'.drop (p - pos))) x).1 = .corrupted) →
+    (replayAux cfg stop fuel rest' pos first m).rc = .corrupted ∨
+      (stop < p ∧ (stop, Rec.savepoint) ∈ walkAux fuel rest pos ∧
+        replayAux cfg stop fuel rest' pos first m = replayAux cfg stop fuel rest pos first m) := by
+  induction fuel with
+  | zero => intro rest rest' pos first m _ _ _ hmem; simp [walkAux] at hmem
+  | succ n ih =>
+    intro rest rest' pos first m hlen hpos hag hmem hdisj hs0 hvalid hbad
+    simp only [walkAux] at hmem hdisj hs0
+    cases he : rest.isEmpty with
+    | true => simp [he] at hmem
+    | false =>
+      have he' : rest'.isEmpty = false := by rw [isEmpty_congr hlen]; exact he
+      simp only [he, Bool.false_eq_true, if_false] at hmem hdisj hs0
+      cases hp : parse rest with
+      | none => simp [hp] at hmem
+      | some ra =>
+        obtain ⟨r, adv⟩ := ra
+        simp only [hp, List.mem_cons, Prod.mk.injEq] at hmem hdisj hs0
+        have h4 := parse_adv_pos hp
+        have hH : 4 ≤ hdr rp := by cases rp <;> simp [hdr]
+        have hk1 : 1 ≤ p + hdr rp - pos := by omega
+        have hh : rest'.headD 0 = rest.headD 0 := by
+          rw [← headD_take rest' _ hk1, ← hag, headD_take rest _ hk1]
+        simp only [replayAux, he, Bool.false_eq_true, if_false] at hvalid
+        cases hfc : (first && rest.headD 0 != WOP_SEP) with
+        | true => simp only [hfc, if_true] at hvalid; exact absurd hvalid (by decide)
+        | false =>
+          simp only [hfc, Bool.false_eq_true, if_false, hp] at hvalid
+          have hns0 : ¬ (r = Rec.savepoint ∧ s0 = pos) := fun ⟨h1, h2⟩ => hs0 pos (Or.inl ⟨rfl, h1.symm⟩) h2.symm
+          simp only [hns0, if_false] at hvalid
+          have hrc : (apply cfg r rest m).1 = Rc.ok := by
+            by_cases hh' : (apply cfg r rest m).1 = Rc.ok
+            · exact hh'
+            · simp only [hh', if_false] at hvalid
+          simp only [hrc, if_true] at hvalid
+          rcases hmem with ⟨h1, h2⟩ | htail
+          · -- the changed separator itself
+            subst h1; subst h2
+            have hk : p + hdr rp - p = hdr rp := by omega
+            rw [hk] at hag
+            have hp' : parse rest' = some (rp, adv) := parse_congr _ hlen hag hp (Nat.le_refl _) (by omega)
+            left
+            have hb := hbad m
+            rw [Nat.sub_self, List.drop_zero] at hb
+            have hnsp : ¬ (rp = Rec.savepoint ∧ stop = p) := by
+              intro ⟨h1, _⟩; rw [h1] at hb; simp [applyB] at hb
+            simp only [replayAux, he', Bool.false_eq_true, if_false, hh, hfc, hp', hnsp, apply, hb]
+            simp
+          · have hge := walkAux_pos_ge n _ _ _ _ htail
+            have ⟨hsepadv, _⟩ := parse_adv_eq hp
+            have hneed : need r adv ≤ p - pos := by
+              cases r with
+              | sep c' l' =>
+                have := hdisj pos c' l' (Or.inl ⟨rfl, rfl⟩) (by omega)
+                have := hsepadv c' l' rfl
+                simp only [need]; omega
+              | _ => simp only [need]; omega
+            have hna : adv ≤ need r adv := by unfold need; split <;> omega
+            have hhdr : hdr r ≤ p + hdr rp - pos := by
+              have := hdr_le_adv hp; omega
+            have hp' : parse rest' = some (r, adv) := parse_congr _ hlen hag hp hhdr hk1
+            have hbody : body r rest = body r rest' := body_congr _ hag hp (by omega)
+            have happ : apply cfg r rest' m = apply cfg r rest m := by unfold apply; rw [hbody]
+            have hag' : (rest.drop adv).take (p + hdr rp - (pos + adv)) = (rest'.drop adv).take (p + hdr rp - (pos + adv)) := by
+              have e1 : (rest.take (p + hdr rp - pos)).drop adv = (rest.drop adv).take (p + hdr rp - pos - adv) := List.drop_take ..
+              have e2 : (rest'.take (p + hdr rp - pos)).drop adv = (rest'.drop adv).take (p + hdr rp - pos - adv) := List.drop_take ..
+              have : p + hdr rp - (pos + adv) = p + hdr rp - pos - adv := by omega
+              rw [this, ← e1, ← e2, hag]
+            have hbad' : ∀ x, (applyB cfg rp (body rp ((rest'.drop adv).drop (p - (pos + adv)))) x).1 = .corrupted := by
+              intro x
+              rw [List.drop_drop]
+              have : adv + (p - (pos + adv)) = p - pos := by omega
+              rw [this]; exact hbad x
+            simp only [replayAux, he, he', Bool.false_eq_true, if_false, hh, hfc, hp, hp', happ, hrc, if_true]
+            by_cases hst : r = Rec.savepoint ∧ stop = pos
+            · right
+              simp only [hst, and_self, if_true]
+              refine ⟨by omega, ?_, trivial⟩
+              simp only [walkAux, he, Bool.false_eq_true, if_false, hp, List.mem_cons, Prod.mk.injEq]
+              exact Or.inl ⟨trivial, hst.1.symm⟩
+            · simp only [hst, if_false]
+              have := ih (rest.drop adv) (rest'.drop adv) (pos + adv) false (apply cfg r rest m).2
+                (by simp [hlen]) (by omega) hag' htail
+                (fun q c' l' hq hlt => hdisj q c' l' (Or.inr hq) hlt)
+                (fun q hq => hs0 q (Or.inr hq)) hvalid hbad'
+              rcases this with h | ⟨h1, h2, h3⟩
+              · left; exact h
+              · right
+                refine ⟨h1, ?_, h3⟩
+                simp only [walkAux, he, Bool.false_eq_true, if_false, hp, List.mem_cons]
+                right; exact h2
+
 /-- positions only matter relative to the stop position -/
 theorem replayAux_shift (cfg : Cfg) (d : Nat) (fuel : Nat) : ∀ (stop : Nat) (rest : Bytes) (pos : Nat) (first : Bool) (m : Bytes),
     replayAux cfg (stop + d) fuel rest (pos + d) first m = replayAux cfg stop fuel rest pos first m := by
